@@ -19,6 +19,10 @@ func ReportCommon(h *History, rep Reporter) {
 	for p, n := range h.PathUsed {
 		rep.Count("path."+p.String(), int64(n))
 	}
+	if h.Sc.IdleOwner != nil {
+		rep.Count("histories_with_idle_owner_runtime", 1)
+		rep.Count("nodes_joined_second_runtime", int64(h.Gen.Notes["node-joined-second-runtime"]))
+	}
 	ReportKeyManager(h, rep)
 	ReportVRF(h, rep)
 }
